@@ -12,12 +12,23 @@ Contract (from the statement; the oracle is the data that was written):
             array written at the most recent time-step index (import_from_pvd on the plain pvd), at the addressed index (mdg pvd,
             import_state_from_vtu), cell by cell (exact equality); the returned time index is the one written.
   ensures   TimeManager: exported_times / exported_dt after load_time_information equal those of the writer.
-Before importing, the stored values are overwritten with NaN so that stale data cannot pass.
+  ensures   model restart ("time and time-step information written alongside is restored likewise"; the statement's anchors name
+            data_saving_model_mixin.py): a small SinglePhaseFlow model with DataSavingMixin is run with non-uniform time steps; at every
+            write_pvd_and_vtu call the checker records time_manager.time / dt and the arrays handed to Exporter.write_vtu.  A second,
+            identical model restarted (prepare_simulation with restart_options) from the mdg pvd of export index k, from the plain pvd
+            (latest export) or from the vtu files of index k holds, for every primary variable on every subdomain and interface, the
+            values written at that export, and time_manager.time / dt are the ones written at that export.
+Before importing, the stored values are overwritten with NaN so that stale data cannot pass (model restart: the fresh model holds its
+initial condition, which differs from every later export).
+
+Exporter configurations: the default, and export_constants_separately=True with constant cell data registered through
+add_constant_data (the plain pvd then lists the state files of all steps first and the constant-data files afterwards).
 
 Grids: 2-d grids built here from explicit connectivity with pp.Grid (triangles, quadrilaterals, a pentagon) in *every order of the
 cells*, several 2-d subdomains in one md-grid with different cell shapes, Cartesian / simplex / polytopal 3-d grids (the polytopal
-ones from porepy.applications.test_utils.grids), 1-d and 0-d grids, and a fractured md-grid with interfaces
-(pp.mdg_library.square_with_orthogonal_fractures, structured).
+ones from porepy.applications.test_utils.grids), 1-d and 0-d grids, three and four Cartesian / point subdomains of one dimension with
+different numbers of cells (0-d to 3-d), fractured md-grids with interfaces (pp.mdg_library.square_with_orthogonal_fractures,
+structured; pp.meshing.cart_grid with four fractures: four 1-d and three 0-d subdomains, ten interfaces).
 
 Finding on the unchanged tree (kept strict): the exporter groups the cells of all subdomains of one dimension by cell shape
 (Meshio_Geom.cell_ids records the permutation) and writes the data in that grouped order; import_state_from_vtu concatenates the
@@ -30,6 +41,14 @@ Second symptom, same input class: for a 3-d md-grid [hexahedral grid, tetrahedra
 obligation "import: returns normally on files written by the Exporter"; [tet, hex] is fine.
 The three import paths (plain pvd, mdg pvd, explicit vtu list) share the obligations; the failing path is named in the detail.
 
+Candidate finding on the unchanged tree (kept strict), obligation "load_data_from_pvd: time is the time written at the restored export
+index", signature "model restart from the plain pvd, export times differ from export indices": DataSavingMixin.write_pvd_and_vtu writes
+the plain pvd with the simulation *times* as `timestep` attributes; Exporter.import_from_pvd (plain branch) returns
+int(float(latest timestep)) as "time index", and load_data_from_pvd uses it to index times.json.  With exports at times
+[0, 0.25, 0.5, 1, 2, 3] the values of export 5 (time 3.0) are restored together with time 1.0 (= exported_times[3]) and the history is
+cut after index 3.  Native: e.write_vtu(..., time_step=s) for s in 0..2; e.write_pvd(times=np.array([0., .25, .5]));
+import_from_pvd(r.pvd) returns 0, not 2.  Restarts from an mdg pvd or from vtu files with time_index are correct.
+
 Detection power (scratch copy, POREPY_SRC, quick tier; exit 1 with the named obligation under the signature "uniform / grouped"):
   M1 import_state_from_vtu._save_to_mdg: `offset += num_dofs` dropped for subdomains (every subdomain reads the first block)
        -> "import: values restored cell by cell" on md-grids with two subdomains of one dimension.
@@ -38,6 +57,15 @@ Detection power (scratch copy, POREPY_SRC, quick tier; exit 1 with the named obl
   M3 Exporter: `_from_vector_format` ravel order "C" -> "F" -> vector data permuted -> "import: values restored cell by cell" (key u).
   M4 TimeManager.write_time_information: `self.exported_dt.append(... self.dt)` -> appends self.time
        -> "time information: exported history holds time and dt of every call" (the file round trip of the wrong list is still consistent).
+  M5 import_state_from_vtu._save_to_mdg: `offset += num_dofs` -> `offset = num_dofs` (wrong only from the third subdomain of a dimension)
+       -> "import: values restored cell by cell" on the md-grids with 3-4 Cartesian subdomains of one dimension and on the four-fracture
+       md-grid (signatures "uniform / grouped" [+ ", with interfaces"] [+ ", constants exported separately"]).
+  M6 DataSavingMixin.load_data_from_pvd: set_time_and_dt_from_exported_steps() called without the time index
+       -> "load_data_from_pvd: time is ... / dt is the dt written at the restored export index", signature "model restart from the mdg
+       pvd of an export index" (intermediate export indices).
+  M7 import_from_pvd (plain pvd): files of the latest step collected by walking the DataSet entries backwards until another time step
+       -> "import: values restored cell by cell", signatures "..., constants exported separately" (the constant-data files are listed
+       after the state files of all steps, nothing is restored and the NaN poison remains).
 """
 from __future__ import annotations
 
@@ -45,12 +73,16 @@ META = {
     "level": "exploration",
     "engine": "sweep",
     "technique": "run-time contract sweep (bounded stand-in for deduction): export with the real Exporter, import with a fresh Exporter on "
-                 "the same md-grid, compare restored cell data with what was written; grids with mixed cell shapes in every cell order",
+                 "the same md-grid, compare restored cell data with what was written; grids with mixed cell shapes in every cell order; "
+                 "run a small model with DataSavingMixin, restart a fresh model from its files, compare values, time and dt",
     "text": "Bounded assurance only: the round trip goes through meshio, XML and per-cell-type regrouping inside third-party writers; no "
-            "contract within reach expresses the file format. Covered: scalar and 3-vector cell data on subdomains and interfaces, plain "
-            "pvd (latest step), mdg pvd (addressed step), explicit vtu lists, TimeManager time information. Not covered: point data, "
-            "constant data files, 2-component vectors, the model mixin (load_data_from_vtu / load_data_from_pvd need a full model), "
-            "ascii vtu, simplex md-grids from gmsh.",
+            "contract within reach expresses the file format. Covered: scalar and 3-vector cell data on subdomains and interfaces (up to "
+            "four subdomains of one dimension), plain pvd (latest step), mdg pvd (addressed step), explicit vtu lists, the same with "
+            "export_constants_separately=True (the time-dependent keys only; the constant field itself is not compared), TimeManager "
+            "time information, and the model mixin restart (load_data_from_pvd with mdg / plain pvd, load_data_from_vtu with time_index) "
+            "on one small SinglePhaseFlow model with scalar variables and non-uniform time steps: values, time and dt of the addressed "
+            "export. Not covered: point data, restoring the constant data themselves, 2-component vectors, vector variables and "
+            "non-SI units in the model restart, the cut of the exported history after a restart, ascii vtu, simplex md-grids from gmsh.",
     "note": "trusted: meshio vtu writer/reader (binary, float64), the written arrays as oracle; files under /var/tmp",
 }
 
@@ -160,6 +192,168 @@ def _grouped_in_order(mdg):
     return ok
 
 
+def _cart_grids(pp, dim, sizes):
+    """len(sizes) Cartesian grids of dimension `dim` (0: point grids) with sizes[i] cells in a row, placed side by side; all cells of
+    a dimension have the same shape, so the exporter's grouping by shape is the identity."""
+    out = []
+    for i, n in enumerate(sizes):
+        if dim == 0:
+            g = pp.PointGrid(np.array([10.0 * i, 0.0, 0.0]))
+        elif dim == 1:
+            g = pp.CartGrid(n, 1)
+        else:
+            g = pp.CartGrid([n] + [1] * (dim - 1))
+        if dim > 0:
+            g.nodes[0] += 10.0 * i
+        g.compute_geometry()
+        out.append(g)
+    return out
+
+
+def _four_fracture_mdg(pp):
+    """4 x 4 Cartesian matrix with three horizontal and one vertical fracture: one 2-d, four 1-d (2, 4, 3, 4 cells) and three 0-d
+    subdomains, four 1-d and six 0-d interfaces."""
+    fracs = [np.array([[1, 3], [1, 1]]), np.array([[0, 4], [2, 2]]), np.array([[1, 4], [3, 3]]), np.array([[2, 2], [0, 4]])]
+    mdg = pp.meshing.cart_grid(fracs, nx=np.array([4, 4]))
+    mdg.compute_geometry()
+    return mdg
+
+
+# ----------------------------------------------------------------------------- model restart
+
+MODEL_SIG = {
+    "mdg_pvd": "model restart from the mdg pvd of an export index",
+    "plain_pvd": "model restart from the plain pvd, export times differ from export indices",
+    "vtu": "model restart from the vtu files of an export index",
+}
+
+
+def _model_class(pp):
+    from porepy.applications.md_grids.model_geometries import SquareDomainOrthogonalFractures
+    from porepy.models.fluid_mass_balance import SinglePhaseFlow
+
+    class BC:
+        """pressure 1 on the west boundary, 0 on the east, no flow elsewhere"""
+
+        def bc_type_darcy_flux(self, sd):
+            sides = self.domain_boundary_sides(sd)
+            return pp.BoundaryCondition(sd, sides.west + sides.east, "dir")
+
+        def bc_values_pressure(self, bg):
+            sides = self.domain_boundary_sides(bg)
+            vals = np.zeros(bg.num_cells)
+            vals[sides.west] = 1.0
+            return vals
+
+    class Recorder:
+        """the oracle: time / dt held by the time manager and the arrays handed to Exporter.write_vtu at every export"""
+
+        def write_pvd_and_vtu(self):
+            if not hasattr(self, "record"):
+                self.record = []
+            self._entry = {"time": float(self.time_manager.time), "dt": float(self.time_manager.dt), "data": []}
+            self.record.append(self._entry)
+            super().write_pvd_and_vtu()
+
+        def data_to_export(self):
+            data = super().data_to_export()
+            self._entry["data"] = [(g, name, np.array(v, dtype=float, copy=True).ravel()) for g, name, v in data]
+            return data
+
+    class Model(Recorder, BC, SquareDomainOrthogonalFractures, SinglePhaseFlow):
+        pass
+
+    return Model
+
+
+def _make_model(pp, folder, cell_size, fractures, restart_options=None):
+    tm = pp.TimeManager(schedule=[0.0, 3.0], dt_init=0.25, dt_min_max=(0.05, 1.0), iter_optimal_range=(4, 7), iter_relax_factors=(0.7, 2.0),
+                        constant_dt=False)
+    params = {"time_manager": tm, "fracture_indices": list(fractures), "grid_type": "cartesian", "meshing_arguments": {"cell_size": cell_size},
+              "folder_name": str(folder), "file_name": "data",
+              "material_constants": {"fluid": pp.FluidComponent(compressibility=0.5, viscosity=1.0, density=1.0),
+                                     "solid": pp.SolidConstants(porosity=0.3, permeability=1.0, normal_permeability=0.5)}}
+    if restart_options is not None:
+        params["restart_options"] = restart_options
+    return _model_class(pp)(params)
+
+
+def _model_grids(model):
+    return list(model.mdg.subdomains()) + list(model.mdg.interfaces())
+
+
+def run_model(pp, root, cell_size, fractures):
+    """Run the exporting model; returns (ok, model or message)."""
+    import logging
+
+    logging.disable(logging.CRITICAL)
+    try:
+        def go():
+            m = _make_model(pp, Path(root) / "first", cell_size, fractures)
+            pp.run_time_dependent_model(m)
+            return m
+
+        return _call(go)
+    finally:
+        logging.disable(logging.NOTSET)
+
+
+def check_model_restart(pp, model, root, cell_size, fractures, how, k, tag):
+    """Restart a fresh, identical model from export index k of `model` through `how`; returns (status, list of (obligation, detail)),
+    status "skip" when the second model's md-grid does not match (outside requires)."""
+    import logging
+
+    first = Path(root) / "first"
+    rec = model.record[k]
+    ro = {"restart": True, "pvd_file": None, "is_mdg_pvd": False, "vtu_files": None, "times_file": first / "times.json"}
+    if how == "mdg_pvd":
+        ro.update(pvd_file=first / f"data_{k:06d}.pvd", is_mdg_pvd=True)
+        fn = "load_data_from_pvd"
+    elif how == "plain_pvd":
+        ro.update(pvd_file=first / "data.pvd")
+        fn = "load_data_from_pvd"
+    else:
+        ro.update(vtu_files=sorted(first.glob(f"data_*_{k:06d}.vtu")), time_index=k)
+        fn = "load_data_from_vtu"
+    logging.disable(logging.CRITICAL)
+    try:
+        def go():
+            m2 = _make_model(pp, Path(root) / tag, cell_size, fractures, ro)
+            m2.prepare_simulation()
+            return m2
+
+        ok, m2 = _call(go)
+    finally:
+        logging.disable(logging.NOTSET)
+    if not ok:
+        return "run", [(f"{fn}: restart returns normally on files written by the model", m2)]
+    g1, g2 = _model_grids(model), _model_grids(m2)
+    if len(g1) != len(g2) or any(a.dim != b.dim or a.num_cells != b.num_cells or not np.allclose(a.cell_centers, b.cell_centers) for a, b in zip(g1, g2)):
+        return "skip", []
+    pos = {id(g): i for i, g in enumerate(g1)}
+    primary = {v.name for v in model.equation_system.variables}
+    bad = []
+    for g, name, exp in rec["data"]:
+        if name not in primary:
+            continue
+        h = g2[pos[id(g)]]
+        d = m2.mdg.subdomain_data(h) if isinstance(h, pp.Grid) else m2.mdg.interface_data(h)
+        ok, got = _call(lambda: np.asarray(pp.get_solution_values(name=name, data=d, time_step_index=0)).ravel())
+        if not ok or got.shape != exp.shape or not np.array_equal(got, exp):
+            bad.append((f"{fn}: variable values restored cell by cell",
+                        f"export index {k}: variable {name} on {'subdomain' if isinstance(h, pp.Grid) else 'interface'} (dim {h.dim}, {h.num_cells} cells): "
+                        f"wrote {exp.tolist()[:8]}, restored {got.tolist()[:8] if ok else got}"))
+            break
+    times, dts = [r["time"] for r in model.record], [r["dt"] for r in model.record]
+    if float(m2.time_manager.time) != rec["time"]:
+        bad.append((f"{fn}: time is the time written at the restored export index",
+                    f"values of export index {k} (time {rec['time']}), restored time {float(m2.time_manager.time)}; written times {times}"))
+    if float(m2.time_manager.dt) != rec["dt"]:
+        bad.append((f"{fn}: dt is the dt written at the restored export index",
+                    f"values of export index {k} (dt {rec['dt']}), restored dt {float(m2.time_manager.dt)}; written dts {dts}"))
+    return "run", bad
+
+
 # ----------------------------------------------------------------------------- round trip
 
 
@@ -176,15 +370,21 @@ def _values(k, nc, step, vector):
     return (base + np.arange(nc, dtype=float)).copy()
 
 
-def check_roundtrip(pp, mdg, tmp, tag, steps=(1, 2)):
-    """Export `steps`, import in three ways; returns list of (obligation, detail)."""
+def check_roundtrip(pp, mdg, tmp, tag, steps=(1, 2), constants=False):
+    """Export `steps`, import in three ways; returns list of (obligation, detail).  constants=True: the exporting and the importing
+    Exporter are built with export_constants_separately=True and a constant cell field is registered on every subdomain."""
     folder = Path(tmp) / tag
     ents = _entities(mdg)
     keys = ["p", "u"]
     written = {}
-    ok, ex = _call(lambda: pp.Exporter(mdg, "run", folder))
+    kw = {"export_constants_separately": True} if constants else {}
+    ok, ex = _call(lambda: pp.Exporter(mdg, "run", folder, **kw))
     if not ok:
         return [("export: Exporter construction returns normally", ex)]
+    if constants:
+        ok, r = _call(lambda: ex.add_constant_data([(sd, "perm", 1.0 + np.arange(sd.num_cells, dtype=float)) for sd in mdg.subdomains()]))
+        if not ok:
+            return [("export: add_constant_data returns normally", r)]
     for step in steps:
         for k, (kind, g, d) in enumerate(ents):
             for key, vec in (("p", False), ("u", True)):
@@ -224,7 +424,7 @@ def check_roundtrip(pp, mdg, tmp, tag, steps=(1, 2)):
     last = steps[-1]
     # (a) plain pvd: latest step
     poison()
-    ok, imp = _call(lambda: pp.Exporter(mdg, "restart_a", folder))
+    ok, imp = _call(lambda: pp.Exporter(mdg, "restart_a", folder, **kw))
     ok, ti = _call(lambda: imp.import_from_pvd(folder / "run.pvd", keys=keys))
     if not ok:
         bad.append(("import: returns normally on files written by the Exporter", "[import_from_pvd] " + ti))
@@ -235,7 +435,7 @@ def check_roundtrip(pp, mdg, tmp, tag, steps=(1, 2)):
     # (b) mdg pvd of the first step
     first = steps[0]
     poison()
-    ok, imp = _call(lambda: pp.Exporter(mdg, "restart_b", folder))
+    ok, imp = _call(lambda: pp.Exporter(mdg, "restart_b", folder, **kw))
     ok, ti = _call(lambda: imp.import_from_pvd(folder / f"run_{first:06d}.pvd", is_mdg_pvd=True, keys=keys))
     if not ok:
         bad.append(("import: returns normally on files written by the Exporter", "[import_from_pvd (mdg pvd)] " + ti))
@@ -245,8 +445,8 @@ def check_roundtrip(pp, mdg, tmp, tag, steps=(1, 2)):
         bad += compare(first, "import_from_pvd (mdg pvd)")
     # (c) explicit vtu files of the last step
     poison()
-    ok, imp = _call(lambda: pp.Exporter(mdg, "restart_c", folder))
-    files = sorted(folder.glob(f"run_*_{last:06d}.vtu"))
+    ok, imp = _call(lambda: pp.Exporter(mdg, "restart_c", folder, **kw))
+    files = sorted(f for f in folder.glob(f"run_*_{last:06d}.vtu") if "constant" not in f.name)
     ok, r = _call(lambda: imp.import_state_from_vtu(list(files), keys=keys))
     if not ok:
         bad.append(("import: returns normally on files written by the Exporter", "[import_state_from_vtu] " + r))
@@ -266,9 +466,12 @@ def run(rep):
     rng = rep.rng
     rep.under_contract("pp.Exporter.write_vtu", "pp.Exporter.write_pvd", "pp.Exporter.import_from_pvd", "pp.Exporter.import_state_from_vtu",
                        "pp.Exporter._export_grid_0d/_1d/_2d/_3d (through write_vtu)", "pp.TimeManager.write_time_information",
-                       "pp.TimeManager.load_time_information")
+                       "pp.TimeManager.load_time_information", "pp.Exporter.add_constant_data (export_constants_separately=True)",
+                       "pp.DataSavingMixin.write_pvd_and_vtu / load_data_from_pvd / load_data_from_vtu (through "
+                       "SolutionStrategy.prepare_simulation with restart_options)", "pp.TimeManager.set_time_and_dt_from_exported_steps")
     rep.assume("cell data only, scalar or 3-component, float64, registered at time_step_index 0 on all grids of a dimension",
-               "the importing Exporter is constructed on the same md-grid object", "binary vtu (default): values stored exactly")
+               "the importing Exporter is constructed on the same md-grid object (model restart: on an identically constructed md-grid)",
+               "binary vtu (default): values stored exactly", "model restart: default (SI) units, so the exported arrays are the variable values")
     rep.trust("meshio vtu reader/writer", "the written arrays as oracle", "pp.Grid construction from explicit connectivity (2-d helper in props/C38.py)",
               "porepy.applications.test_utils.grids.polytop_grid_2d/_3d as grid sources")
     rep.explanation = "B only: export -> import -> compare on small md-grids incl. grids mixing triangles, quadrilaterals and polygons/polyhedra."
@@ -280,10 +483,14 @@ def run(rep):
                  "of its cells (quick: 8 seeded orders each + identity + reverse); (b) md-grids with 2-3 explicit 2-d subdomains of different / "
                  "equal shapes in every order; (c) 3-d: CartGrid, StructuredTetrahedralGrid, polytop_grid_3d, and md-grids of [tet, hex], "
                  "[hex, tet], [tet, hex, tet]; (d) polytop_grid_2d; (e) 1-d CartGrid, 0-d PointGrid, 1-d + 2-d unconnected; (f) structured "
-                 "fractured md-grid with interfaces (two orthogonal fractures); each exported at time steps (1, 2) with distinct values per "
+                 "fractured md-grid with interfaces (two orthogonal fractures), and pp.meshing.cart_grid with four fractures (four 1-d, "
+                 "three 0-d subdomains, ten interfaces); (h) 3-4 Cartesian / point subdomains of one dimension (0-d..3-d) with different "
+                 "numbers of cells, and 2-d + 1-d + 0-d together; each exported at time steps (1, 2) with distinct values per subdomain, "
                  "cell, step and key (scalar p, 3-vector u) and imported through plain pvd, mdg pvd and explicit vtu list into NaN-poisoned "
-                 "data; nontrivial = more than one cell in some grid; distinct by the md-grid description",
-            bound="<= 3 subdomains per dimension, <= 4 cells per explicit grid, 2 time steps",
+                 "data; six uniform md-grids and the four-fracture md-grid also with export_constants_separately=True, a constant field "
+                 "and three time steps; (g) twelve time steps, a single string key; nontrivial = more than one cell in some grid or more "
+                 "than one subdomain; distinct by the md-grid description and the Exporter configuration",
+            bound="<= 4 subdomains per dimension, <= 4 cells per explicit grid, 2-3 time steps (12 in one case)",
             exhaustive=False,
         ) as sw:
             cases = []
@@ -296,7 +503,8 @@ def run(rep):
                 for order in orders:
                     cases.append((f"2d {kind} order {order}", lambda kind=kind, order=order: [_explicit_grid(pp, kind, order)]))
             # (b) several 2-d subdomains
-            combos = [("TTTT", "QQQ"), ("QQQ", "TTTT"), ("TTTT", "QQQ", "TTTT"), ("QQQ", "QQQ"), ("QTTQ", "QPT")]
+            combos = [("TTTT", "QQQ"), ("QQQ", "TTTT"), ("TTTT", "QQQ", "TTTT"), ("QQQ", "QQQ"), ("QTTQ", "QPT"), ("QQQ", "QQQ", "QQQ"),
+                      ("TTTT", "TTTT", "TTTT", "TTTT")]
             for combo in combos:
                 cases.append((f"2d subdomains {combo}", lambda combo=combo: [
                     _explicit_grid(pp, k, tuple(range({"QTTQ": 4, "QPT": 3, "QQQ": 3, "TTTT": 4}[k])), x0=10.0 * i) for i, k in enumerate(combo)]))
@@ -326,6 +534,15 @@ def run(rep):
             cases += [("2d polytop", lambda: [poly2()]), ("1d cart", lambda: [cart1()]), ("0d point", lambda: [pt0()]),
                       ("1d + 2d", lambda: [cart1(), _explicit_grid(pp, "QQQ", (0, 1, 2))]),
                       ("2d tri structured", lambda: [(lambda g: (g.compute_geometry(), g)[1])(pp.StructuredTriangleGrid([2, 2], [1, 1]))])]
+            # (h) three and four subdomains of one dimension with one cell shape and different numbers of cells (the import cuts the
+            # per-dimension array by a running offset over the subdomains)
+            for dim, sizes in ((2, (2, 1, 3)), (2, (1, 3, 2, 2)), (1, (2, 4, 3)), (1, (3, 1, 2, 4)), (0, (1, 1, 1)), (0, (1, 1, 1, 1)), (3, (2, 1, 3))):
+                cases.append((f"{dim}d cart subdomains {list(sizes)}", lambda dim=dim, sizes=sizes: _cart_grids(pp, dim, sizes)))
+            cases.append(("cart subdomains 2d [1, 2] + 1d [3, 1, 2] + 0d [1, 1, 1]",
+                          lambda: _cart_grids(pp, 2, (1, 2)) + _cart_grids(pp, 1, (3, 1, 2)) + _cart_grids(pp, 0, (1, 1, 1))))
+            # uniform md-grids that are exported a second time with export_constants_separately=True and three time steps
+            with_constants = {"2d QQQ order (0, 1, 2)", "3d cart", "1d + 2d", "0d point", "2d cart subdomains [2, 1, 3]",
+                              "cart subdomains 2d [1, 2] + 1d [3, 1, 2] + 0d [1, 1, 1]"}
             for name, mk in cases:
                 ok, grids = _call(mk)
                 if not ok:
@@ -333,12 +550,19 @@ def run(rep):
                 mdg = pp.MixedDimensionalGrid()
                 mdg.add_subdomains(grids)
                 grouped = _grouped_in_order(mdg)
-                bad = check_roundtrip(pp, mdg, tmp, f"case{sw.evaluations}")
                 inp = {"md_grid": name, "subdomains": [{"dim": g.dim, "num_cells": g.num_cells,
                                                         "nodes_per_cell": np.asarray(g.cell_nodes().sum(axis=0)).ravel().astype(int).tolist()} for g in grids]}
-                sw.case(name, nontrivial=max(g.num_cells for g in grids) > 1, sample=inp)
-                for ob, det in bad:
-                    rep.violation(ob, SIG_UNIFORM if grouped else SIG_MIXED, inputs=inp, detail=det, confirmed=True)
+                for constants in (False, True) if (name in with_constants and grouped) else (False,):
+                    if constants:
+                        bad = check_roundtrip(pp, mdg, tmp, f"case{sw.evaluations}c", steps=(1, 2, 3), constants=True)
+                        inp = dict(inp, export_constants_separately=True, steps=[1, 2, 3])
+                    else:
+                        bad = check_roundtrip(pp, mdg, tmp, f"case{sw.evaluations}")
+                    sw.case(name + (" / constants separately" if constants else ""), nontrivial=max(g.num_cells for g in grids) > 1 or len(grids) > 1,
+                            sample=inp)
+                    for ob, det in bad:
+                        rep.violation(ob, (SIG_UNIFORM if grouped else SIG_MIXED) + (", constants exported separately" if constants else ""),
+                                      inputs=inp, detail=det, confirmed=True)
             # (f) fractured md-grid with interfaces
             for nfrac, cs in ((1, 0.5), (2, 0.5)) if quick else ((1, 0.5), (2, 0.5), (2, 0.25)):
                 ok, res = _call(lambda: pp.mdg_library.square_with_orthogonal_fractures("cartesian", meshing_args={"cell_size": cs},
@@ -355,6 +579,23 @@ def run(rep):
                 sw.case(name, nontrivial=True, sample=inp)
                 for ob, det in bad:
                     rep.violation(ob, (SIG_UNIFORM if _grouped_in_order(mdg) else SIG_MIXED) + ", with interfaces", inputs=inp, detail=det, confirmed=True)
+            # (f2) four fractures: four 1-d and three 0-d subdomains with different numbers of cells, four 1-d and six 0-d interfaces;
+            # default Exporter and export_constants_separately=True
+            ok, mdg = _call(lambda: _four_fracture_mdg(pp))
+            if not ok:
+                rep.note(f"four-fracture md-grid could not be built ({mdg}); case skipped")
+                sw.skip()
+            else:
+                name = "pp.meshing.cart_grid 4x4, fractures y=1 (x 1..3), y=2 (x 0..4), y=3 (x 1..4), x=2 (y 0..4)"
+                for constants in (False, True):
+                    bad = check_roundtrip(pp, mdg, tmp, f"frac4_{int(constants)}", steps=(0, 1, 2), constants=constants)
+                    inp = {"md_grid": name, "steps": [0, 1, 2], "export_constants_separately": constants,
+                           "subdomains": [{"dim": g.dim, "num_cells": g.num_cells} for g in mdg.subdomains()],
+                           "interfaces": [{"dim": i.dim, "num_cells": i.num_cells} for i in mdg.interfaces(codim=1)]}
+                    sw.case(name + (" / constants separately" if constants else ""), nontrivial=True, sample=inp)
+                    for ob, det in bad:
+                        rep.violation(ob, SIG_UNIFORM + ", with interfaces" + (", constants exported separately" if constants else ""), inputs=inp,
+                                      detail=det, confirmed=True)
 
             # (g) more than nine exported time steps (the pvd stores the steps as text), and a single key given as a string
             mdg = pp.MixedDimensionalGrid()
@@ -381,6 +622,41 @@ def run(rep):
             if not ok2 or not np.array_equal(np.asarray(got), vals):
                 rep.violation("import: values restored cell by cell", "keys given as a single string", inputs={"md_grid": "1d cart", "keys": "pressure"},
                               detail=f"restored {got if ok2 else (err2 if ok else err)} expected {vals.tolist()}", confirmed=True)
+
+        with rep.sweep(
+            "model restart (DataSavingMixin)",
+            rule="SinglePhaseFlow on the unit square with Cartesian cells (cell_size, fracture_indices) in {(0.5, [0, 1])} (thorough: also "
+                 "(0.25, [0, 1]), (0.5, [0])), adaptive time steps on [0, 3] from dt 0.25 (exports at non-uniform times with non-uniform dt); "
+                 "a fresh identical model is restarted from (a) the mdg pvd of every export index k, (b) the plain pvd (latest export), (c) the "
+                 "vtu files of an intermediate and of the last export index with time_index=k; compared with the checker's record of the "
+                 "arrays handed to write_vtu and of time_manager.time / dt at export k; nontrivial = k >= 1 (the restored values differ "
+                 "from the initial condition of the fresh model) ; distinct by (model, restart path, k)",
+            bound="1 model (thorough: 3), <= 8 exports, <= 34 cells",
+            exhaustive=False,
+        ) as sw:
+            for cs, fr in ((0.5, (0, 1)),) if quick else ((0.5, (0, 1)), (0.25, (0, 1)), (0.5, (0,))):
+                root = Path(tmp) / f"model_{int(cs * 100)}_{len(fr)}"
+                ok, model = run_model(pp, root, cs, fr)
+                if not ok or len(getattr(model, "record", [])) < 4:
+                    rep.note(f"model (cell_size {cs}, fractures {list(fr)}) did not run to the end ({model if not ok else 'fewer than 4 exports'}); cases skipped")
+                    sw.skip()
+                    continue
+                n = len(model.record)
+                times = [r["time"] for r in model.record]
+                restarts = [("mdg_pvd", k) for k in range(n)] + [("plain_pvd", n - 1), ("vtu", 2), ("vtu", n - 1)]
+                for how, k in restarts:
+                    inp = {"model": "SinglePhaseFlow, SquareDomainOrthogonalFractures, cartesian", "cell_size": cs, "fracture_indices": list(fr),
+                           "restart": how, "export_index": k, "written_times": times, "written_dt": [r["dt"] for r in model.record]}
+                    if how == "plain_pvd" and times == [float(j) for j in range(n)]:
+                        sw.skip()  # the signature names export times that differ from the indices
+                        continue
+                    status, bad = check_model_restart(pp, model, root, cs, fr, how, k, f"second_{how}_{k}")
+                    if status == "skip":
+                        sw.skip()
+                        continue
+                    sw.case(("model", cs, fr, how, k), nontrivial=k >= 1, sample=inp)
+                    for ob, det in bad:
+                        rep.violation(ob, MODEL_SIG[how], inputs=inp, detail=det, confirmed=True)
 
         with rep.sweep(
             "TimeManager time information",
@@ -443,14 +719,35 @@ def replay(data):
     import porepy as pp
     from porepy.applications.test_utils.grids import polytop_grid_2d, polytop_grid_3d
 
-    name = (data.get("inputs") or {}).get("md_grid", "")
+    inputs = data.get("inputs") or {}
+    name = inputs.get("md_grid", "")
+    constants = bool(inputs.get("export_constants_separately", False))
+    steps = tuple(inputs.get("steps") or (1, 2))
+
+    if "model" in inputs:
+        cs, fr, how, k = inputs["cell_size"], tuple(inputs["fracture_indices"]), inputs["restart"], inputs["export_index"]
+        with tempfile.TemporaryDirectory(dir="/var/tmp", prefix="verif_c38_") as tmp:
+            ok, model = run_model(pp, tmp, cs, fr)
+            if not ok or len(model.record) <= k:
+                print("replay: model did not run", model if not ok else "")
+                return False
+            status, bad = check_model_restart(pp, model, tmp, cs, fr, how, k, "second")
+        print("replay:", status, bad[:3])
+        return bool(bad)
 
     def geo(g):
         g.compute_geometry()
         return g
 
+    mdg = None
     m = re.match(r"2d (\w+) order \(([\d, ]+)\)", name)
-    if m:
+    pieces = re.findall(r"(\d)d \[([\d, ]+)\]", name) if name.startswith("cart subdomains") else \
+        re.findall(r"^(\d)d cart subdomains \[([\d, ]+)\]", name)
+    if pieces:
+        grids = [g for dim, sizes in pieces for g in _cart_grids(pp, int(dim), tuple(int(v) for v in sizes.split(",")))]
+    elif name.startswith("pp.meshing.cart_grid 4x4"):
+        mdg = _four_fracture_mdg(pp)
+    elif m:
         grids = [_explicit_grid(pp, m.group(1), tuple(int(v) for v in m.group(2).split(",") if v.strip()))]
     elif name == "2d polytop":
         grids = [geo(polytop_grid_2d())]
@@ -466,9 +763,10 @@ def replay(data):
     else:
         print("no native replay for md-grid", name)
         return False
-    mdg = pp.MixedDimensionalGrid()
-    mdg.add_subdomains(grids)
+    if mdg is None:
+        mdg = pp.MixedDimensionalGrid()
+        mdg.add_subdomains(grids)
     with tempfile.TemporaryDirectory(dir="/var/tmp", prefix="verif_c38_") as tmp:
-        bad = check_roundtrip(pp, mdg, tmp, "replay")
+        bad = check_roundtrip(pp, mdg, tmp, "replay", steps=steps, constants=constants)
     print("replay:", bad[:3])
     return bool(bad)
